@@ -68,6 +68,11 @@ TEXT = {
         text="Per seeded hardware tree every subject (sensors_temperatures in C and F, sensors_fans, sensors_battery, cpu_freq, cpu_count, cpu_stats, boot_time) runs fault-free and is compared exactly with a reference computed from the tree by the rules of the statement; then each sysfs file the call opened is made absent, EACCES on open, or EIO/ENODEV/ENXIO on read (thresholds also non-numeric), one at a time: a faulted reading file must only drop that sensor, a faulted optional file must only change what the statement says. Exhaustive in (file touched, fault kind) per tree; trees are sampled; each batch runs under one of four pinned PYTHONHASHSEED values because psutil iterates sets of names.",
         note="Trusted base: the reference functions in sim/engines/sysfs.py, SimKernel VFS + glob. Faults on files the statement promises no tolerance for (chip name, scaling_max/min_freq, zone type, /proc files) are executed but not judged.",
         ref="DESIGN.md section 9, C19"),
+    "C20": dict(
+        technique="deterministic simulation of the non-Linux platform layers on Linux: fresh interpreter per platform identity under faked sys.platform/os.name, table-driven stub native modules, errno injected at every per-process native/procfs call (enumerated), stub process table kept consistent",
+        text="For each of FreeBSD, OpenBSD, NetBSD, macOS, Solaris, AIX and Windows the real platform module and the platform-conditional front end are imported over stub native modules whose records carry a distinct value per slot in the order of the C sources. Every Process method (pid ordinary / 0 / low, live / zombie, with and without a cached name) runs fault-free (layout check against the C slot order, Windows permission fallbacks against proc_info slots) and then once per (per-process native or procfs call, errno) with the pid turned absent or zombie for 'no such process' errnos: the outcome must be a value, NoSuchProcess (absent) / ZombieProcess (listed zombie) / AccessDenied (permission class) with pid and cached name, or the same error passed through. net_if_addrs front-end post-processing and the documented per-platform names are checked too. Exhaustive over (platform, method, call, errno) in both tiers; thorough adds sampled double faults.",
+        note="Trusted base: the stub tables in sim/engines/foreign.py (function inventories and slot orders transcribed from psutil/_psutil_*.c and psutil/arch/*), the seam substitution. The C code itself is not executed. Methods that shell out (Solaris pfiles part of net_connections('unix'/'all'), AIX open_files) and OpenBSD exe() are not simulated. Faults are not injected into system-wide native calls nor into psutil's own zombie/existence probes after a first failure.",
+        ref="DESIGN.md section 9, C20"),
     "C03": dict(
         technique="deterministic simulation: seeded worlds + enumerated fault injection at every OS access index (fork-per-run, trace digest, ddmin-shrunk replay files)",
         text="For every seeded world, every Process query method is run once fault-free to number its OS accesses, then once per (pid-related access k) x {process vanishes, turns zombie, EACCES, EPERM} plus sampled two-fault sequences; each outcome must be a well-shaped value or NoSuchProcess/ZombieProcess/AccessDenied with the right cause and pid, and after a vanish every getter must raise NoSuchProcess. Exhaustive in (method, access, fault kind) per world, sampled over worlds: evidence, not proof.",
